@@ -44,9 +44,24 @@ CHECKS = {
  "C11": ("seq", "exploration", "deterministic simulation: seeded histories x the four option combinations x methods incl. OPTIONS/'*'/methods without routes against the reference dispatcher (handler kind, Allow as a set, scrubbed context, scope)",
          "Which special handler answers an unserved request, the exact Allow set and the context it sees are compared with the reference over arbitrary tables; per-method answers that fall in a listed C08 finding are taken from fox and counted.",
          "Allow composition is judged even where the per-method routing answer is a known C08 finding", "6 C11"),
+ "C12": ("req+conc", "exploration", "deterministic simulation: token-tagged requests of every shape from 1-3 client tasks plus a tree-replacing writer under the seeded scheduler; every Context getter compared with the current request before and after each yield; clones re-inspected after later requests",
+         "Leaks depend on what the previous user of a pooled context left behind and on which request ran in between; the scheduler decides both, the pool is made deterministic (one P, GC off during a run), and every observable field carries a per-request token so that any foreign datum is attributable.",
+         "plain mode only (sync.Pool drops objects at random under -race); shapes and routes from a fixed family", "6 C12"),
+ "C13": ("req+conc", "exploration", "deterministic simulation: configuration swarm of scoped global and route-specific middleware with per-request identifier traces; concurrent public NewRoute calls under the seeded scheduler with a yield between option application and chain composition; HB mode",
+         "Each handler kind's trace is compared with the scope/order rule for a drawn configuration; route creation from several tasks is interleaved at the point where a shared backing array would be overwritten, and the same schedules run under the race detector.",
+         "middleware identity = an integer appended on entry; DefaultOptions sub-batch only checks the user middleware around Recovery/Logger", "6 C13"),
+ "C14": ("io", "fault_enumeration", "deterministic simulation with enumerated fault points: writer-call histories over a simulated connection whose failure byte and whose source's failure byte are enumerated over every boundary; differential run with/without the ReaderFrom fast path",
+         "For each generated history of ResponseWriter/Context-helper calls every byte position at which the connection or the ReadFrom source fails is executed; Status/Size/Written after every call are compared with what the connection really received, and must not depend on the fast path.",
+         "histories <= 7 calls and <= 14 body bytes; 'forwarded' is judged from the simulated connection's own log", "6 C14"),
+ "C15": ("req+conc", "fault_enumeration", "deterministic simulation with enumerated fault points: every panic value x response progress x panic site, and a panic after every prefix of an Updates/View program inside a handler; follow-up request, route sweep and a scheduled write (deadlock detector) after each",
+         "All combinations are executed for each generated configuration (routes, header capitalisation, transaction program); containment, the 500/untouched/nothing rule, the diagnostic record (route, params, request line, no secret value) and usability afterwards (routes unchanged, request served, writer lock released) are checked.",
+         "panic values from a fixed list of 10; secrets are unique tokens searched as substrings of the whole record", "6 C15"),
+ "C20": ("req", "exploration", "deterministic simulation: scripted handler behaviours x resolver configurations x handler kinds through the real Logger middleware with a capturing sink, differential against a twin router without the logger",
+         "One record per returning handler, after it, with the recorder's status, the request's method/host/path, the three-way client-IP message, the level per status class and the location attribute; the response must be byte-identical to the twin router's; a panic passes through as the identical value without a record.",
+         "latency attribute ignored (real clock, unobserved)", "6 C20"),
 }
 
-PENDING = {'C12': 'check under construction in this revision; not claimed yet', 'C13': 'check under construction in this revision; not claimed yet', 'C14': 'check under construction in this revision; not claimed yet', 'C15': 'check under construction in this revision; not claimed yet', 'C20': 'check under construction in this revision; not claimed yet'}  # id -> reason while a check is being built
+PENDING = {}  # id -> reason while a check is being built
 
 def main():
     checks = []
@@ -72,6 +87,7 @@ def main():
         engines.setdefault(c[0], []).append(pid)
     kinds = {
       "seq+conc": "both of the engines below, chosen per run",
+      "req+conc": "request world (scripted handlers, panics, resolvers, log capture over the real ServeHTTP path) driven by tasks of the cooperative scheduler",
       "seq": "sequential refinement engine: seeded histories on the real router, compared operation by operation with the reference model",
       "conc": "cooperative one-task-at-a-time scheduler over fox's verif yield points; seeded schedules; porcupine linearizability; HB mode = same schedules under -race with simulator hand-offs hidden",
       "io": "simulated connection and sources with injected short writes/errors; writer-call histories with enumerated fault positions",
